@@ -132,6 +132,20 @@ def true_normals(m):
     return n / np.linalg.norm(n, axis=1)[:, None]
 
 
+def normals_deviation(stored, m):
+    """largest difference between stored face normals and the triangle normals, over the faces that have a normal:
+    a triangle whose corners are collinear to 1e-9 (earcut emits one when vertices of different rings are collinear)
+    has none, and trimesh documents a zero vector for it"""
+    t = np.asarray(m.vertices)[np.asarray(m.faces)]
+    e = np.stack((t[:, 1] - t[:, 0], t[:, 2] - t[:, 1], t[:, 0] - t[:, 2]), axis=1)
+    n = np.cross(e[:, 0], -e[:, 2])
+    nn = np.linalg.norm(n, axis=1)
+    ok = nn > 1e-9 * (np.linalg.norm(e, axis=2).max(axis=1) ** 2)
+    if not ok.any():
+        return 0.0
+    return float(np.abs(np.asarray(stored)[ok] - n[ok] / nn[ok][:, None]).max())
+
+
 def norm_place(place):
     """placements within the documented 1e-8 identity shortcut of transform_points / apply_transform are C04's
     domain: here they are replaced by the exact identity before anything is called"""
@@ -417,7 +431,7 @@ def b_flat(case, ctx):
             check(len(m.faces) == 12 and len(m.vertices) == 8, sig + "|counts", f"{len(m.vertices)} vertices {len(m.faces)} faces")
             check_vertices_bounds(m, ref, sig, "box")
             check_measures(m, ref, sig, "box")
-            dn = np.abs(np.asarray(m.face_normals) - true_normals(m)).max()
+            dn = normals_deviation(m.face_normals, m)
             check(dn <= 1e-9, sig + "|face_normals", f"stored face normals differ from the triangle normals by {dn:.3g}")
             return
         rings = G.build_rings(case["polygon"])
@@ -602,7 +616,7 @@ def check_primitive_state(P, kind, p, M, sig, rings=None):
         check_valid(m, sig, euler)
         check_valid(P, sig + "|primitive_object", euler)
         check(np.array_equal(np.asarray(P.vertices), np.asarray(m.vertices)) and np.array_equal(np.asarray(P.faces), np.asarray(m.faces)), sig + "|to_mesh_differs", "")
-        dn = np.abs(np.asarray(P.face_normals) - true_normals(m)).max()
+        dn = normals_deviation(P.face_normals, m)
         check(dn <= 1e-9, sig + "|face_normals", f"primitive face normals differ from the triangle normals by {dn:.3g}")
         if kind == "Box":
             ref = O.place(O.box(p["extents"]), M)
